@@ -19,6 +19,14 @@ source (checked on 35 hand-made mutants of app.go / controller.go / definition.g
 refuses (no table, no theorem) Go it does not model, e.g. a constructor used as a function value.
 Texts are stored and compared as numbers (`c!"…"`, see below).
 
+`thresholds_agree` and `single_instances_wired` do not depend on what the local variables of the wiring
+functions are called, nor on whether a call-free expression such as `lock.Threshold` is first bound to a
+local: they read the CANONICAL texts of the translator (`Arg.canon`, `Def.nrhs`, `Use.nrole`; a parameter is
+`«param i»`, a variable assigned exactly once — address not taken — by a call of a named function is
+`«callee»`, one assigned once by a call-free path over such variables stands for that path, the used variable
+itself is `_`; see the header of the translator) and find variables by def-use — the variable that IS
+argument i of a call (`Arg.root` with `Arg.isVar`), the parameter i of a function — not by name.
+
 Reading aid. `site pkg name` = (enclosing function, enclosing constructs) of every call of that
 function in the scanned packages; `arg pkg name i` = text of argument `i` of every such call;
 `var fn x` = type, kind (`param i` / `local` / …), EVERY assignment to `x` in `fn` (enclosing
@@ -121,6 +129,55 @@ def usesOf (fn x : Txt) : List (List Txt × Txt) :=
 def returnsOf (fn : Txt) : List (List Txt × Txt) :=
   (plainReturns.filter fun r => r.1 == fn).map fun r => (strsOf r.2.1, str r.2.2)
 
+/-! ### name-free readers (canonical texts, variables found by def-use) -/
+
+/-- canonical text of argument `i` of every call of `pkg.name` (`<none>` if there is no such argument). -/
+def argC (pkg name : Txt) (i : Nat) : List Txt :=
+  (callsOf pkg name).map fun c => (c.args[i]?.map fun a => str a.canon).getD c!"<none>"
+
+/-- canonical argument texts of every call of `pkg.name`. -/
+def argsC (pkg name : Txt) : List (List Txt) :=
+  (callsOf pkg name).map fun c => c.args.map fun a => str a.canon
+
+/-- the variable (index into `vars`) that argument `i` of every call of `pkg.name` is (`none`: not a plain variable). -/
+def argVar (pkg name : Txt) (i : Nat) : List (Option Nat) :=
+  (callsOf pkg name).map fun c => c.args[i]?.bind fun a => if a.isVar then a.root else none
+
+/-- the variables of `fn` of the given kind (`param 3`): indices into `vars`. -/
+def varsOfKind (fn kind : Txt) : List Nat :=
+  (List.range vars.length).filter fun k => (vars[k]?.map fun v => v.fn == fn && str v.kind == kind).getD false
+
+/-- variable `k`: type, kind, every assignment (canonical right-hand side), whether its address is taken. -/
+def varAt (k : Option Nat) : List VarV :=
+  ((k.bind (vars[·]?)).toList).map fun v =>
+    ⟨str v.ty, str v.kind, v.defs.map (fun d => ⟨strsOf d.path, str d.nrhs, d.res⟩), v.addrTaken⟩
+
+def defCalleesAt (k : Option Nat) : List (List Txt × Txt) :=
+  (((k.bind (vars[·]?)).toList).map fun v => v.defs.map fun d => (strsOf d.path, str d.callee)).flatten
+
+/-- every `x.f = e`, `x[k] = e` on variable `k`: number of them (the theorems below only need "none"). -/
+def writesAt (k : Option Nat) : List (List Txt × Txt × Txt) :=
+  (writes.filter fun w => some w.var == k).map fun w => (strsOf w.path, str w.lhs, str w.rhs)
+
+def aliasesAt (k : Option Nat) : List (List Txt × Txt) :=
+  (aliases.filter fun w => some w.var == k).map fun w => (strsOf w.path, str w.lhs)
+
+/-- every occurrence of variable `k` other than its own assignments: (enclosing constructs, canonical role). -/
+def usesAt (k : Option Nat) : List (List Txt × Txt) :=
+  (uses.filter fun u => some u.var == k).map fun u => (strsOf u.path, str u.nrole)
+
+/-- the one variable of `fn` that is its parameter `i` (`none` unless there is exactly one). -/
+def paramOf (fn kind : Txt) : Option Nat :=
+  match varsOfKind fn kind with
+  | [k] => some k
+  | _ => none
+
+/-- the one variable that is argument `i` of the one call of `pkg.name` (`none` otherwise). -/
+def theArgVar (pkg name : Txt) (i : Nat) : Option Nat :=
+  match argVar pkg name i with
+  | [some k] => some k
+  | _ => none
+
 /-! ### the constants of the statements -/
 
 def wcw : Txt := c!"app.wireCoreWorkflow"
@@ -131,25 +188,30 @@ def perShare : Txt := c!"range i, b := val.PubShares"
 def nicknameGuard : Txt := c!"unless len(conf.Nickname) > 32"
 
 /-- **One threshold, the lock's.** The partial-signature store and the aggregator are each
-constructed once, unconditionally, in `wireCoreWorkflow`, and the threshold argument of both is the
-expression `lock.Threshold`; the priority protocol gets its parameter `threshold`, which the only
-call of `wirePrioritise` gives `lock.Threshold` too. In all three `lock` is parameter 3 of
-`wireCoreWorkflow`, which is never assigned, whose address is not taken, none of whose fields is
-written there and which gets no second name (`l := lock`); the only call of `wireCoreWorkflow` (in
-`Run`) passes the variable `lock` whose only assignment is `loadClusterLock(ctx, conf, eth1Cl)`, and
-`Run` writes no field of it either. (There is no second source such as
-`cluster.Threshold(len(lock.Operators))`.) -/
+constructed once, unconditionally, in `wireCoreWorkflow`, and the threshold argument of both is, in
+canonical form, `«param 3».Threshold`: the field `Threshold` of parameter 3 of `wireCoreWorkflow`, written
+there directly or reached through locals that are assigned exactly once by a call-free path (the
+translator resolves those; `t := lock.Threshold - 1`, a second assignment to `t`, `&t` all leave the name
+`t` in the text). The priority protocol gets parameter 5 of `wirePrioritise`, never assigned, which the only
+call of `wirePrioritise` gives `«param 3».Threshold` too. Parameter 3 of `wireCoreWorkflow` (the lock) is
+never assigned, its address is not taken, none of its fields is written there and it gets no second name
+(`l := lock`); the only call of `wireCoreWorkflow` (in `Run`) passes a variable whose only assignment is
+`loadClusterLock(…)`, and `Run` writes no field of it and gives it no second name either. (There is no
+second source such as `cluster.Threshold(len(lock.Operators))`.) -/
 theorem thresholds_agree :
-    site c!"core/parsigdb" c!"NewMemDB" = [(wcw, [])] ∧ arg c!"core/parsigdb" c!"NewMemDB" 0 = [c!"lock.Threshold"] ∧
-    site c!"core/sigagg" c!"New" = [(wcw, [])] ∧ arg c!"core/sigagg" c!"New" 0 = [c!"lock.Threshold"] ∧
+    site c!"core/parsigdb" c!"NewMemDB" = [(wcw, [])] ∧ argC c!"core/parsigdb" c!"NewMemDB" 0 = [c!"«param 3».Threshold"] ∧
+    site c!"core/sigagg" c!"New" = [(wcw, [])] ∧ argC c!"core/sigagg" c!"New" 0 = [c!"«param 3».Threshold"] ∧
     site c!"core/priority" c!"NewComponent" = [(c!"app.wirePrioritise", [c!"unless !ok"])] ∧
-    arg c!"core/priority" c!"NewComponent" 3 = [c!"threshold"] ∧
-    var c!"app.wirePrioritise" c!"threshold" = [⟨c!"int", c!"param 5", [], false⟩] ∧
-    site c!"app" c!"wirePrioritise" = [(wcw, [])] ∧ arg c!"app" c!"wirePrioritise" 5 = [c!"lock.Threshold"] ∧
-    var wcw c!"lock" = [⟨c!"*cluster.Lock", c!"param 3", [], false⟩] ∧ writesTo wcw c!"lock" = [] ∧ aliasesOf wcw c!"lock" = [] ∧
-    site c!"app" c!"wireCoreWorkflow" = [(c!"app.Run", [nicknameGuard])] ∧ arg c!"app" c!"wireCoreWorkflow" 3 = [c!"lock"] ∧
-    var c!"app.Run" c!"lock" = [⟨c!"*cluster.Lock", c!"local", [⟨[], c!"loadClusterLock(ctx, conf, eth1Cl)", 0⟩], false⟩] ∧
-    writesTo c!"app.Run" c!"lock" = [] ∧ aliasesOf c!"app.Run" c!"lock" = [] := by
+    argC c!"core/priority" c!"NewComponent" 3 = [c!"«param 5»"] ∧
+    varAt (paramOf c!"app.wirePrioritise" c!"param 5") = [⟨c!"int", c!"param 5", [], false⟩] ∧
+    site c!"app" c!"wirePrioritise" = [(wcw, [])] ∧ argC c!"app" c!"wirePrioritise" 5 = [c!"«param 3».Threshold"] ∧
+    varAt (paramOf wcw c!"param 3") = [⟨c!"*cluster.Lock", c!"param 3", [], false⟩] ∧
+    writesAt (paramOf wcw c!"param 3") = [] ∧ aliasesAt (paramOf wcw c!"param 3") = [] ∧
+    site c!"app" c!"wireCoreWorkflow" = [(c!"app.Run", [nicknameGuard])] ∧
+    argC c!"app" c!"wireCoreWorkflow" 3 = [c!"«app.loadClusterLock»"] ∧
+    varAt (theArgVar c!"app" c!"wireCoreWorkflow" 3) = [⟨c!"*cluster.Lock", c!"local",
+      [⟨[], c!"loadClusterLock(«param 0», «param 1», «app/eth1wrap.NewDefaultEthClientRunner»)", 0⟩], false⟩] ∧
+    writesAt (theArgVar c!"app" c!"wireCoreWorkflow" 3) = [] ∧ aliasesAt (theArgVar c!"app" c!"wireCoreWorkflow" 3) = [] := by
   and_intros <;> decide +kernel
 
 /-- **The verifiers are the real ones.**
@@ -245,23 +307,29 @@ theorem gater_wired :
     var c!"core/consensus.NewConsensusController" c!"gaterFunc" = [⟨c!"core.DutyGaterFunc", c!"param 7", [], false⟩] := by
   and_intros <;> decide +kernel
 
-/-- the parameters of `core.Wire` and what `wireCoreWorkflow` passes for them. -/
-def wireArgs : List (Txt × Txt × Txt) :=
-  (wireParams.zip (((args c!"core" c!"Wire").head?).getD [])).map fun (p, a) => (str p.1, str p.2, a)
+/-- the variable passed for parameter `i` of `core.Wire` by its one call (`none`: no such call, or not a plain variable). -/
+def wireVar (i : Nat) : Option Nat := theArgVar c!"core" c!"Wire" i
+
+/-- the parameters of `core.Wire` and, for the variable `wireCoreWorkflow` passes for each, the function every
+one of its assignments calls (with the enclosing constructs; empty text: not a call of a named function; empty
+list: the argument is not a plain variable). -/
+def wireArgs : List (Txt × Txt × List (List Txt × Txt)) :=
+  ((List.range wireParams.length).zip wireParams).map fun (i, p) => (str p.1, str p.2, defCalleesAt (wireVar i))
 
 /-- **The instances wired are the ones constructed above, once.**
 * `core.Wire` is referred to in one non-test file of the repository, `app/app.go`; it is called once,
   unconditionally, in `wireCoreWorkflow`, whose only non-error return is the final `return nil`.
-* Its arguments are, position by position, the variables `sched … broadcaster`; each has exactly the
-  assignments listed (one constructor call; for `parSigEx` and `aggSigDB` the two named alternatives;
-  `coreConsensus` is `consensusController.CurrentConsensus()` of the one controller); the wire options
-  are the tracing, tracking and retry wrappers and nothing else.
+* Its arguments are, position by position, plain variables; each has exactly the assignments listed (one
+  constructor call; for the exchange and the aggregate store the two named alternatives; the consensus
+  argument is `CurrentConsensus()` of the variable assigned once, unconditionally, by
+  `consensus.NewConsensusController`); the wire options are the tracing, tracking and retry wrappers and
+  nothing else. (What the variables are called does not matter: they are found as the arguments of the call.)
 * The listed constructors are called in the functions of package app exactly in the order given: no
   second store, aggregator, exchange, broadcaster or `Wire`.
-* Besides going into `Wire`: `broadcaster`, `parSigEx` and `coreConsensus` are not used at all (nothing
-  else feeds or subscribes to them), `sigAgg` only gets the test-config `BroadcastCallback` subscriber
-  under `conf.TestConfig.BroadcastCallback != nil`, `parSigDB`, `aggSigDB`, `dutyDB` only hand their
-  `Trim` / `Run` / `Shutdown` to the life-cycle manager, `vapi` goes to the HTTP router.
+* Besides going into `Wire`: the broadcaster, exchange and consensus variables are not used at all (nothing
+  else feeds or subscribes to them), the aggregator only gets the test-config `BroadcastCallback` subscriber
+  under `conf.TestConfig.BroadcastCallback != nil`, the partial-signature store, aggregate store and duty store
+  only hand their `Trim` / `Run` / `Shutdown` to the life-cycle manager, the validator API goes to the HTTP router.
 * The broadcaster is built over the submission client, parameter 8, the second result of `newETH2Client`;
   the consensus controller over the lock's peers `lock.Peers()`. -/
 theorem single_instances_wired :
@@ -269,25 +337,22 @@ theorem single_instances_wired :
     site c!"core" c!"Wire" = [(wcw, [])] ∧
     returnsOf wcw = [([], c!"return nil")] ∧
     wireArgs =
-      [(c!"sched", c!"core.Scheduler", c!"sched"), (c!"fetch", c!"core.Fetcher", c!"fetch"), (c!"cons", c!"core.Consensus", c!"coreConsensus"),
-       (c!"dutyDB", c!"core.DutyDB", c!"dutyDB"), (c!"vapi", c!"core.ValidatorAPI", c!"vapi"), (c!"parSigDB", c!"core.ParSigDB", c!"parSigDB"),
-       (c!"parSigEx", c!"core.ParSigEx", c!"parSigEx"), (c!"sigAgg", c!"core.SigAgg", c!"sigAgg"), (c!"aggSigDB", c!"core.AggSigDB", c!"aggSigDB"),
-       (c!"bcast", c!"core.Broadcaster", c!"broadcaster"), (c!"opts", c!"...core.WireOption", c!"opts")] ∧
-    var wcw c!"opts" = [⟨c!"[]core.WireOption", c!"local",
-      [⟨[], c!"[]core.WireOption{ core.WithTracing(), core.WithTracking(track, inclusion), core.WithAsyncRetry(retryer), }", 0⟩], false⟩] ∧
-    defCallees wcw c!"sched" = [([], c!"core/scheduler.New")] ∧
-    defCallees wcw c!"fetch" = [([], c!"core/fetcher.New")] ∧
-    var wcw c!"coreConsensus" = [⟨c!"core.Consensus", c!"local", [⟨[], c!"consensusController.CurrentConsensus()", 0⟩], false⟩] ∧
-    defCallees wcw c!"consensusController" = [([], c!"core/consensus.NewConsensusController")] ∧
-    defCallees wcw c!"dutyDB" = [([], c!"core/dutydb.NewMemDB")] ∧
-    defCallees wcw c!"vapi" = [([], c!"core/validatorapi.NewComponent")] ∧
-    defCallees wcw c!"parSigDB" = [([], c!"core/parsigdb.NewMemDB")] ∧
-    defCallees wcw c!"parSigEx" = [([], c!""), ([ifTestExchange], c!""), ([elseTestExchange], c!"core/parsigex.NewParSigEx")] ∧
-    defCallees wcw c!"sigAgg" = [([], c!"core/sigagg.New")] ∧
-    defCallees wcw c!"aggSigDB" =
-      [([], c!""), ([c!"if featureset.Enabled(featureset.AggSigDBV2)"], c!"core/aggsigdb.NewMemDBV2"),
-       ([c!"else featureset.Enabled(featureset.AggSigDBV2)"], c!"core/aggsigdb.NewMemDB")] ∧
-    defCallees wcw c!"broadcaster" = [([], c!"core/bcast.New")] ∧
+      [(c!"sched", c!"core.Scheduler", [([], c!"core/scheduler.New")]),
+       (c!"fetch", c!"core.Fetcher", [([], c!"core/fetcher.New")]),
+       (c!"cons", c!"core.Consensus", [([], c!"(core.ConsensusController).CurrentConsensus")]),
+       (c!"dutyDB", c!"core.DutyDB", [([], c!"core/dutydb.NewMemDB")]),
+       (c!"vapi", c!"core.ValidatorAPI", [([], c!"core/validatorapi.NewComponent")]),
+       (c!"parSigDB", c!"core.ParSigDB", [([], c!"core/parsigdb.NewMemDB")]),
+       (c!"parSigEx", c!"core.ParSigEx", [([], c!""), ([ifTestExchange], c!""), ([elseTestExchange], c!"core/parsigex.NewParSigEx")]),
+       (c!"sigAgg", c!"core.SigAgg", [([], c!"core/sigagg.New")]),
+       (c!"aggSigDB", c!"core.AggSigDB",
+         [([], c!""), ([c!"if featureset.Enabled(featureset.AggSigDBV2)"], c!"core/aggsigdb.NewMemDBV2"),
+          ([c!"else featureset.Enabled(featureset.AggSigDBV2)"], c!"core/aggsigdb.NewMemDB")]),
+       (c!"bcast", c!"core.Broadcaster", [([], c!"core/bcast.New")]),
+       (c!"opts", c!"...core.WireOption", [([], c!"")])] ∧
+    varAt (wireVar 10) = [⟨c!"[]core.WireOption", c!"local",
+      [⟨[], c!"[]core.WireOption{ core.WithTracing(), core.WithTracking(«app.newTracker», «core/tracker.NewInclusion»), core.WithAsyncRetry(«app/retry.New»), }", 0⟩], false⟩] ∧
+    varAt (wireVar 2) = [⟨c!"core.Consensus", c!"local", [⟨[], c!"«core/consensus.NewConsensusController».CurrentConsensus()", 0⟩], false⟩] ∧
     callsIn [wcw, c!"app.Run", c!"app.wirePrioritise", c!"app.newTracker", c!"app.wireVAPIRouter"] =
       [(c!"app.Run", c!"core/consensus", c!"NewDebugger"), (c!"app.Run", c!"app", c!"wireCoreWorkflow"),
        (wcw, c!"core", c!"NewDutyDeadlineFunc"), (wcw, c!"core", c!"NewDeadliner"), (wcw, c!"core/scheduler", c!"New"),
@@ -304,25 +369,26 @@ theorem single_instances_wired :
        (c!"app.wireVAPIRouter", c!"core/validatorapi", c!"NewRouter")] ∧
     (calls.filter fun c => c.pkg != c!"cluster").all (fun c =>
       [wcw, c!"app.Run", c!"app.wirePrioritise", c!"app.newTracker", c!"app.wireVAPIRouter", c!"core/consensus.NewConsensusController"].contains c.fn) = true ∧
-    usesOf wcw c!"broadcaster" = [([], c!"broadcaster as arg 9 of core.Wire")] ∧
-    usesOf wcw c!"parSigEx" = [([], c!"parSigEx as arg 6 of core.Wire")] ∧
-    usesOf wcw c!"coreConsensus" = [([], c!"coreConsensus as arg 2 of core.Wire")] ∧
-    usesOf wcw c!"sigAgg" =
-      [([], c!"sigAgg as arg 7 of core.Wire"),
-       ([c!"if conf.TestConfig.BroadcastCallback != nil"], c!"called sigAgg.Subscribe | sigAgg.Subscribe(conf.TestConfig.BroadcastCallback)")] ∧
-    usesOf wcw c!"parSigDB" = [([], c!"parSigDB as arg 5 of core.Wire"), ([], c!"parSigDB.Trim as arg 0 of lifecycle.HookFuncCtx")] ∧
-    usesOf wcw c!"aggSigDB" = [([], c!"aggSigDB as arg 8 of core.Wire"), ([], c!"aggSigDB.Run as arg 0 of lifecycle.HookFuncCtx")] ∧
-    usesOf wcw c!"dutyDB" = [([], c!"dutyDB as arg 3 of core.Wire"), ([], c!"dutyDB.Shutdown as arg 0 of lifecycle.HookFuncMin")] ∧
-    usesOf wcw c!"vapi" = [([], c!"vapi as arg 2 of app.wireVAPIRouter"), ([], c!"vapi as arg 4 of core.Wire")] ∧
-    args c!"core/bcast" c!"New" = [[c!"ctx", c!"submissionEth2Cl"]] ∧
-    var wcw c!"submissionEth2Cl" = [⟨c!"app/eth2wrap.Client", c!"param 8", [], false⟩] ∧
-    arg c!"app" c!"wireCoreWorkflow" 8 = [c!"subEth2Cl"] ∧
-    var c!"app.Run" c!"subEth2Cl" = [⟨c!"app/eth2wrap.Client", c!"local",
-      [⟨[], c!"newETH2Client(ctx, conf, life, lock, lock.ForkVersion, conf.BeaconNodeTimeout, conf.BeaconNodeSubmitTimeout)", 1⟩], false⟩] ∧
-    arg c!"core/consensus" c!"NewConsensusController" 4 = [c!"peers"] ∧
-    var wcw c!"peers" = [⟨c!"[]p2p.Peer", c!"local", [⟨[], c!"lock.Peers()", 0⟩], false⟩] ∧
-    arg c!"core/consensus/qbft" c!"NewConsensus" 4 = [c!"peers"] ∧
-    var c!"core/consensus.NewConsensusController" c!"peers" = [⟨c!"[]p2p.Peer", c!"param 4", [], false⟩] := by
+    usesAt (wireVar 9) = [([], c!"_ as arg 9 of core.Wire")] ∧
+    usesAt (wireVar 6) = [([], c!"_ as arg 6 of core.Wire")] ∧
+    usesAt (wireVar 2) = [([], c!"_ as arg 2 of core.Wire")] ∧
+    usesAt (wireVar 7) =
+      [([], c!"_ as arg 7 of core.Wire"),
+       ([c!"if conf.TestConfig.BroadcastCallback != nil"], c!"called _.Subscribe | _.Subscribe(«param 2».TestConfig.BroadcastCallback)")] ∧
+    usesAt (wireVar 5) = [([], c!"_ as arg 5 of core.Wire"), ([], c!"_.Trim as arg 0 of lifecycle.HookFuncCtx")] ∧
+    usesAt (wireVar 8) = [([], c!"_ as arg 8 of core.Wire"), ([], c!"_.Run as arg 0 of lifecycle.HookFuncCtx")] ∧
+    usesAt (wireVar 3) = [([], c!"_ as arg 3 of core.Wire"), ([], c!"_.Shutdown as arg 0 of lifecycle.HookFuncMin")] ∧
+    usesAt (wireVar 4) = [([], c!"_ as arg 2 of app.wireVAPIRouter"), ([], c!"_ as arg 4 of core.Wire")] ∧
+    argsC c!"core/bcast" c!"New" = [[c!"«param 0»", c!"«param 8»"]] ∧
+    varAt (paramOf wcw c!"param 8") = [⟨c!"app/eth2wrap.Client", c!"param 8", [], false⟩] ∧
+    argC c!"app" c!"wireCoreWorkflow" 8 = [c!"«app.newETH2Client#1»"] ∧
+    varAt (theArgVar c!"app" c!"wireCoreWorkflow" 8) = [⟨c!"app/eth2wrap.Client", c!"local",
+      [⟨[], c!"newETH2Client(«param 0», «param 1», life, «app.loadClusterLock», «app.loadClusterLock».ForkVersion, « ...#06f17efc", 1⟩], false⟩] ∧
+    argC c!"core/consensus" c!"NewConsensusController" 4 = [c!"«(cluster.Definition).Peers»"] ∧
+    varAt (theArgVar c!"core/consensus" c!"NewConsensusController" 4) =
+      [⟨c!"[]p2p.Peer", c!"local", [⟨[], c!"«param 3».Peers()", 0⟩], false⟩] ∧
+    argC c!"core/consensus/qbft" c!"NewConsensus" 4 = [c!"«param 4»"] ∧
+    varAt (paramOf c!"core/consensus.NewConsensusController" c!"param 4") = [⟨c!"[]p2p.Peer", c!"param 4", [], false⟩] := by
   and_intros <;> decide +kernel
 
 /-- **Share index = peer index + 1, wherever it is computed.**
